@@ -581,6 +581,107 @@ theorem parallel_eq_matvec (n k : Nat) (a : Op) (x : Vec) (hx : x.length = 2 ^ n
       exact ih _ (fun g' hg' => hm g' (by simp [hg']))
   exact this _ 0 (fun g hg => hg)
 
+/-! ### the diagonal summed over the terms -/
+
+/-- a qubit no factor acts on keeps its bit -/
+theorem actPTerm_untouched (t : List (Nat × Nat)) (q s : Nat) (h : ∀ f ∈ t, f.1 ≠ q) :
+    (actPTerm t s).2.testBit q = s.testBit q := by
+  induction t with
+  | nil => rfl
+  | cons g t ih =>
+    have hg := h g (by simp)
+    rw [actPTerm_cons]
+    simp only [pcomp, pfac]
+    have hrest := ih (fun f hf => h f (by simp [hf]))
+    have hp : g.2 = 1 ∨ g.2 = 2 ∨ g.2 = 3 ∨ (g.2 ≠ 1 ∧ g.2 ≠ 2 ∧ g.2 ≠ 3) := by omega
+    rcases hp with h1 | h1 | h1 | ⟨h1, h2, h3⟩
+    · simp only [actP, h1]; rw [testBit_xflip_ne _ _ _ hg, hrest]
+    · simp only [actP, h1]; rw [testBit_xflip_ne _ _ _ hg, hrest]
+    · simp only [actP, h1]; exact hrest
+    · rw [OFV.Proofs.C07.actP_other _ _ _ h1 h2 h3]; exact hrest
+
+/-- a Pauli string containing `X` or `Y` (on distinct qubits) moves every basis state -/
+theorem actPTerm_moves (t : List (Nat × Nat)) (hp : t.Pairwise (fun f g => f.1 < g.1))
+    (h : ∃ f ∈ t, f.2 = 1 ∨ f.2 = 2) (s : Nat) : (actPTerm t s).2 ≠ s := by
+  obtain ⟨f, hf, hxy⟩ := h
+  suffices hb : (actPTerm t s).2.testBit f.1 = !s.testBit f.1 by
+    intro he; rw [he] at hb; cases hs : s.testBit f.1 <;> simp [hs] at hb
+  induction t with
+  | nil => cases hf
+  | cons g t ih =>
+    have hpc := List.pairwise_cons.mp hp
+    rw [actPTerm_cons]
+    simp only [pcomp, pfac]
+    rcases List.mem_cons.mp hf with rfl | hf'
+    · have hun := actPTerm_untouched t f.1 s (fun g hg => by have := hpc.1 g hg; omega)
+      rcases hxy with h1 | h1 <;> simp only [actP, h1] <;> rw [testBit_xflip, hun]
+    · have hne : g.1 ≠ f.1 := by have := hpc.1 f hf'; omega
+      have hrest := ih hpc.2 hf'
+      have hp4 : g.2 = 1 ∨ g.2 = 2 ∨ g.2 = 3 ∨ (g.2 ≠ 1 ∧ g.2 ≠ 2 ∧ g.2 ≠ 3) := by omega
+      rcases hp4 with h1 | h1 | h1 | ⟨h1, h2, h3⟩
+      · simp only [actP, h1]; rw [testBit_xflip_ne _ _ _ hne, hrest]
+      · simp only [actP, h1]; rw [testBit_xflip_ne _ _ _ hne, hrest]
+      · simp only [actP, h1]; exact hrest
+      · rw [OFV.Proofs.C07.actP_other _ _ _ h1 h2 h3]; exact hrest
+
+open OFV.Spec.C07 (ampP) in
+/-- the loop of `get_linear_qubit_operator_diagonal` over the terms: entry `beIndex n s` is the sum of
+`c · ⟨s| t |s⟩` -/
+theorem diag_fold (n : Nat) (a : Op)
+    (ha : ∀ e ∈ a, e.1.Pairwise (fun f g => f.1 < g.1) ∧ ∀ f ∈ e.1, f.1 < n ∧ 1 ≤ f.2 ∧ f.2 ≤ 3) (s : Nat) (hs : s < 2 ^ n) :
+    ∀ (d : Vec), d.length = 2 ^ n →
+    (a.foldl (fun d (e : Term × GQ) =>
+      match diagTerm n e.1 with
+      | none => d
+      | some v => vadd d (vscale e.2 v)) d).length = 2 ^ n ∧
+    (a.foldl (fun d (e : Term × GQ) =>
+      match diagTerm n e.1 with
+      | none => d
+      | some v => vadd d (vscale e.2 v)) d).getD (beIndex n s) 0 =
+      a.foldl (fun acc (e : Term × GQ) => acc + e.2 * ampP e.1 s s) (d.getD (beIndex n s) 0) := by
+  induction a with
+  | nil => intro d hd; exact ⟨hd, rfl⟩
+  | cons e a ih =>
+    intro d hd
+    have he := ha e (by simp)
+    have iha := ih (fun e' he' => ha e' (by simp [he']))
+    simp only [List.foldl_cons]
+    by_cases hz : ∀ f ∈ e.1, f.2 = 3
+    · -- a Z-only term
+      have hv : ∀ f ∈ e.1, f.1 < n ∧ 1 ≤ f.2 ∧ f.2 ≤ 3 := he.2
+      obtain ⟨hl, hsnd⟩ := matvecTerm_sound n e.1 (List.replicate (2 ^ n) 1) he.1 hv (by simp)
+      rw [diagTerm_of_allZ n e.1 hz]
+      simp only
+      have hva := vadd_getD d (vscale e.2 (matvecTerm e.1 (List.replicate (2 ^ n) 1)))
+        (by rw [vscale_length, hl, hd])
+      obtain ⟨r1, r2⟩ := iha (vadd d (vscale e.2 (matvecTerm e.1 (List.replicate (2 ^ n) 1))))
+        (by rw [(hva 0).1, hd])
+      refine ⟨r1, ?_⟩
+      rw [r2, (hva (beIndex n s)).2, vscale_getD]
+      have hdiag := actPTerm_allZ e.1 hz s
+      have h1 := hsnd s
+      rw [hdiag] at h1
+      have hone : (List.replicate (2 ^ n) (1 : GQ)).getD (beIndex n s) 0 = 1 := by
+        simp [List.getD_eq_getElem?_getD, List.getElem?_replicate, beIndex_lt n s]
+      rw [h1, hone, gq_mul_one]
+      simp only [ampP, hdiag, if_true]
+    · -- a term with X or Y
+      have hxy : ∃ f ∈ e.1, f.2 = 1 ∨ f.2 = 2 := by
+        apply Classical.byContradiction
+        intro hno
+        apply hz
+        intro f hf
+        have := he.2 f hf
+        have h12 : ¬ (f.2 = 1 ∨ f.2 = 2) := fun h => hno ⟨f, hf, h⟩
+        omega
+      rw [diagTerm_of_xy n e.1 hxy]
+      simp only
+      obtain ⟨r1, r2⟩ := iha d hd
+      refine ⟨r1, ?_⟩
+      rw [r2]
+      have hmv := actPTerm_moves e.1 he.1 hxy s
+      simp only [ampP, hmv, if_false, gq_mul_zero, gq_add_zero]
+
 end C06
 end Proofs
 end OFV
